@@ -159,6 +159,20 @@ def work(item):
             if adiabatic:
                 kw['chi'] = chi
             qn = ps.QuasiNeutralitySolver(eta, 2 * rdeg, rb, Cst, adiabaticElectrons=adiabatic, **kw)
+            if chi == 1 or not adiabatic:
+                # history: the same solver object has already solved for another (concrete) density
+                other = np.empty(RHO.shape, dtype=object)
+                for idx in itertools.product(*[range(n) for n in RHO.shape]):
+                    other[idx] = SComplex(K(Fr(1 + idx[0] + 2 * idx[1] * idx[1] + 3 * idx[2], 5)), 0)
+                dist.fill_grid(rho, other)
+                qn.getModes(rho)
+                rho.setLayout('mode_solve')
+                phi.setLayout('mode_solve')
+                qn.solveEquation(phi, rho)
+                phi.setLayout('v_parallel_2d')
+                rho.setLayout('v_parallel_2d')
+                qn.findPotential(phi)
+                dist.fill_grid(rho, cplx)
             qn.getModes(rho)
             rho.setLayout('mode_solve')
             phi.setLayout('mode_solve')
@@ -372,6 +386,17 @@ def float_replay(m, ps, item):
             if adiabatic:
                 kw['chi'] = chi
             qn = ps.QuasiNeutralitySolver(eta, 2 * rdeg, rb, Cst, adiabaticElectrons=adiabatic, **kw)
+            if chi == 1 or not adiabatic:
+                other = np.array([[[(1 + a + 2 * b * b + 3 * c) / 5.0 for c in range(nz)] for b in range(NQ)] for a in range(nr)], dtype=complex)
+                dist.fill_grid(rho, other)
+                qn.getModes(rho)
+                rho.setLayout('mode_solve')
+                phi.setLayout('mode_solve')
+                qn.solveEquation(phi, rho)
+                phi.setLayout('v_parallel_2d')
+                rho.setLayout('v_parallel_2d')
+                qn.findPotential(phi)
+                dist.fill_grid(rho, RHO.astype(complex))
             qn.getModes(rho)
             rho.setLayout('mode_solve')
             phi.setLayout('mode_solve')
